@@ -283,6 +283,44 @@ def targeted(run):
 KNOWN_TARGETED = {}
 
 
+def cast_grid(run):
+    """A filter whose predicate reads a column above an astype: every numeric source/destination dtype pair, on data that
+    changes under the narrowing casts (wrap-around, rounding, truncation, sign), several predicates, vs pandas."""
+    import rt
+    import numpy as np
+    import pandas as pd
+    vals = {"int64": [0, 1, 100, 127, 128, 200, 255, 256, 300, 32768, 70000, 2**31 + 5, -1, -129, 16777217],
+            "float64": [0.0, 1.0, 1.5, 2.5, -0.5, 127.0, 128.0, 300.7, 16777217.0, 3e9, -1.0, 255.9, 70000.2, 0.1, 1e-3],
+            "int32": [0, 1, 100, 127, 128, 200, 255, 256, 300, 32768, 70000, -1, -129, 16777217, 5],
+            "uint8": [0, 1, 100, 127, 128, 200, 255, 3, 4, 5, 6, 7, 8, 9, 10]}
+    dsts = ["int8", "int16", "int32", "int64", "uint8", "uint16", "float32", "float64"]
+    preds = {"> 100": lambda c: c > 100, "< 0": lambda c: c < 0, "== 1": lambda c: c == 1, "== 16777216": lambda c: c == 16777216, ">= 128": lambda c: c >= 128,
+             "<= 44": lambda c: c <= 44, "!= 0": lambda c: c != 0}
+    n = 0
+    for src, vs in vals.items():
+        pdf = pd.DataFrame({"a": np.array(vs, dtype=src), "b": range(len(vs))})
+        for dst in dsts:
+            if dst == src:
+                continue
+            for form, cast in (("dict", lambda d: d.astype({"a": dst})), ("all", lambda d: d.astype(dst))):
+                for pn, pf in preds.items():
+                    with np.errstate(all="ignore"):
+                        exp = try_(lambda: (lambda y: y[pf(y.a)])(cast(pdf)))
+                    if exp[0] == "raise":
+                        continue
+                    n += 1
+                    run.count(("cast", src, dst, form, pn))
+                    df = rt.dx.from_pandas(pdf, npartitions=3)
+                    got = try_(lambda: canon(concat_parts(exec_expr((lambda y: y[pf(y.a)])(cast(df)).optimize().expr)), True))
+                    pc = canon(exp[1], True)
+                    case = {"kind": "cast", "src": src, "dst": dst, "form": form, "pred": pn}
+                    if got[0] == "raise":
+                        run.violation("filter a %s above astype(%s -> %s, %s) fails when optimized: %s" % (pn, src, dst, form, got[1]), case)
+                    elif got[1] != pc:
+                        run.violation("filter a %s above astype(%s -> %s, %s) returns %s, pandas %s" % (pn, src, dst, form, _short(got[1]), _short(pc)), case)
+    run.section("cast_grid", cases=n, sources=sorted(vals), destinations=dsts)
+
+
 def run(run):
     run.trusted = common.COMMON_TRUSTED + [
         "structural equality of sub-predicates stands for `_name` equality (justified by C08)",
@@ -297,3 +335,4 @@ def run(run):
     scenario_sweep(run)
     join_table(run)
     targeted(run)
+    cast_grid(run)
